@@ -49,6 +49,7 @@ type TypeExpr struct {
 	Pkg  string
 	Name string
 	Elem *TypeExpr
+	Key  *TypeExpr // "map"
 	N    string
 }
 
@@ -60,6 +61,8 @@ func (t *TypeExpr) String() string {
 		return "[]" + t.Elem.String()
 	case "array":
 		return "[" + t.N + "]" + t.Elem.String()
+	case "map":
+		return "map[" + t.Key.String() + "]" + t.Elem.String()
 	}
 	if t.Pkg != "" {
 		return t.Pkg + "." + t.Name
@@ -270,6 +273,12 @@ func (ps *parser) typeExpr() *TypeExpr {
 	id := ps.next()
 	if id.kind != "id" {
 		ps.fail("expected type name, found '" + id.text + "'")
+	}
+	if id.text == "map" && ps.isOp("[") {
+		ps.p++
+		k := ps.typeExpr()
+		ps.expectOp("]")
+		return &TypeExpr{Kind: "map", Key: k, Elem: ps.typeExpr()}
 	}
 	if ps.isOp(".") {
 		ps.p++
